@@ -47,8 +47,10 @@ METHODS = collections.OrderedDict([
 DEG = {'lin': 1, 'quad': 2, 'cub': 3}
 
 
-def reproduced_degree(method, npts):
-    """Per-axis polynomial degree the method provably reproduces on a grid with `npts` points per axis.
+def reproduced_degree(method, npts, uniform=False):
+    """Per-axis polynomial degree the method provably reproduces on a grid with `npts` points per axis (uniform: every
+    axis is evenly spaced; there Akima's interpolant reproduces tensor quadratics INSIDE the grid, Interp.tla
+    Uniform / AkQuadLaw - the caller restricts that case to in-bounds points).
 
     slinear / akima / natural cubic spline: 1 (piecewise linear; Akima's slopes of collinear data are the common
     slope; the natural spline of collinear data has zero second derivatives).  lagrange2 / lagrange3: 2 / 3 (the
@@ -56,7 +58,9 @@ def reproduced_degree(method, npts):
     interpolating spline of degree k, and polynomials of degree <= k are in the spline space; the order is reduced
     to n-1 on an axis with n <= k points."""
     base = method.split('-')[-1]
-    if base in ('slinear', 'akima', 'cubic', 'scipy_slinear'):
+    if base == 'akima':
+        return 2 if uniform else 1
+    if base in ('slinear', 'cubic', 'scipy_slinear'):
         return 1
     if base == 'lagrange2':
         return 2
@@ -95,7 +99,7 @@ def write_cfg(ctx, name, dims, npoly, all1d, nrep, nrep3, full2d, interior, exse
 ''' % (', '.join(str(d) for d in dims), npoly, tb(all1d), nrep, nrep3, tb(full2d), tb(interior), tb(exfull),
        ', '.join(tb(b) for b in exset), tb(histpos), bkind, akima[0] if akima else 1, akima[1] if akima else 0)
     if akima:
-        return ctx.write_cfg(name, txt + 'INIT InitAk\nNEXT NextAk\nINVARIANT AkLaw\nINVARIANT ExportAk\n')
+        return ctx.write_cfg(name, txt + 'INIT InitAk\nNEXT NextAk\nINVARIANT AkLaw\nINVARIANT AkQuadLaw\nINVARIANT ExportAk\n')
     txt += 'INIT Init\nNEXT Next\n'
     if laws:
         txt += ''.join('INVARIANT %s\n' % i for i in ('GridsOk', 'ErrorIff', 'NodeLaw', 'DerivLaw', 'HatLaw', 'BLaw'))
@@ -171,6 +175,8 @@ def crosscheck(e):
     inb = all(s['g'][i][0] <= x[i] <= s['g'][i][-1] for i in range(s['dim']))
     if o['inb'] != inb or o['err'] != ((not s['ex']) and not inb):
         raise MachineryError('spec / reference disagree on bounds: %s' % json.dumps(e)[:400])
+    if o['uni'] != all(len({g[i + 1] - g[i] for i in range(len(g) - 1)}) == 1 for g in s['g']):
+        raise MachineryError('spec / reference disagree on even spacing: %s' % json.dumps(e)[:400])
     if o['err']:
         return
     if fr(o['v']) != poly_eval(s, x) or [fr(d) for d in o['d']] != poly_grad(s, x):
@@ -286,7 +292,7 @@ def check_group(item):
     import numpy as np
     from ..util import quiet
     quiet()
-    s0, pts, do_mm, poss = item
+    s0, pts, do_mm, poss, uni, do_semi = item
     dim, cls, ex = s0['dim'], s0['cls'], s0['ex']
     table = table_of(s0)
     scale = float(np.max(np.abs(table)))
@@ -309,11 +315,13 @@ def check_group(item):
                 except ValueError:
                     cnt['rejected_by_method'] += 1
             continue
-        repro = reproduced_degree(m, npts) >= DEG[cls]
+        repro_out = reproduced_degree(m, npts) >= DEG[cls]            # ... also when extrapolating
+        repro_in = reproduced_degree(m, npts, uni) >= DEG[cls]        # ... inside the grid
         it = make_interp(m, s0, table, ex)
         mv = vals[m] = {}
         todo = []
         for j, (x, want, err, inb, allnode) in enumerate(pts):
+            repro = repro_in if inb else repro_out
             if not (err or repro or allnode or METHODS[m][2] or m in partners):
                 continue
             todo.append(j)
@@ -365,6 +373,7 @@ def check_group(item):
             vvals[m] = {}
             for j, v in zip(ok, vb):
                 x, want, err, inb, allnode = pts[j]
+                repro = repro_in if inb else repro_out
                 v = float(v)
                 vvals[m][j] = v
                 if repro or allnode:
@@ -387,6 +396,7 @@ def check_group(item):
                 fails[0].append((m, 'MetaModelStructuredComp.setup', ('exc', '%s: %s' % (type(e).__name__, str(e)[:120])),
                                  'component setup on a grid the method accepts'))
             for j, (x, want, err, inb, allnode) in enumerate(pts):
+                repro = repro_in if inb else repro_out
                 if p is None or not (err or repro or allnode):
                     continue
                 r = call_mm(p, x)
@@ -404,6 +414,8 @@ def check_group(item):
                     if not close_exact(r[1], want, scale):
                         fails[j].append((m, 'MetaModelStructuredComp', r, 'table value at a node' if allnode else
                                          'polynomial of the reproduced class'))
+    if do_semi:
+        check_semi(s0, pts, table, scale, npts, uni, fails, cnt)
     # fixed-dimension variants (single-point and vectorised path) agree with the general method on every table,
     # inside the grid
     for m, (k, fd, gen) in METHODS.items():
@@ -624,7 +636,53 @@ def replay_history(ctx, pid, rec, judge):
         ctx.violation(scen, o, [[f[2], f[3], f[4]]], rec['clause'])
 
 
-def build_items(groups, ctx, mm_every):
+SEMI_METHODS = ('slinear', 'lagrange2', 'lagrange3', 'akima')
+
+
+def check_semi(s0, pts, table, scale, npts, uni, fails, cnt):
+    """MetaModelSemiStructuredComp trained with the full grid (every node as one training point): the same table
+    methods, so the same exactness - table value at nodes, the reproduced polynomial class inside the grid.  Axes with
+    fewer points than the method needs are skipped (the component reduces the order there)."""
+    import itertools
+    import numpy as np
+    import openmdao.api as om
+    dim, cls = s0['dim'], s0['cls']
+    nodes = np.array(list(itertools.product(*[np.array(g, dtype=float) for g in s0['g']])))
+    for m in SEMI_METHODS:
+        if any(n < METHODS[m][0] for n in npts):
+            continue
+        repro = reproduced_degree(m, npts, uni) >= DEG[cls]
+        todo = [j for j, (x, want, err, inb, allnode) in enumerate(pts) if inb and (repro or allnode)]
+        if not todo:
+            continue
+        try:
+            p = om.Problem()
+            c = om.MetaModelSemiStructuredComp(method=m, extrapolate=True, vec_size=1)
+            for i in range(dim):
+                c.add_input('x%d' % i, training_data=nodes[:, i].copy())
+            c.add_output('f', training_data=np.array(table, dtype=float).ravel())
+            p.model.add_subsystem('mm', c, promotes=['*'])
+            p.setup()
+            p.final_setup()
+        except Exception as e:      # noqa: BLE001
+            fails[todo[0]].append((m, 'MetaModelSemiStructuredComp.setup', ('exc', '%s: %s' % (type(e).__name__, str(e)[:120])),
+                                   'component setup on the full grid'))
+            continue
+        for j in todo:
+            x, want, err, inb, allnode = pts[j]
+            r = call_mm(p, x)
+            cnt['calls'] += 1
+            cnt['semi_calls'] += 1
+            if r[0] != 'v':
+                fails[j].append((m, 'MetaModelSemiStructuredComp', r, 'no error expected (point inside the grid)'))
+                continue
+            cnt['compared'] += 1
+            if not close_exact(r[1], want, scale):
+                fails[j].append((m, 'MetaModelSemiStructuredComp', r, 'table value at a node' if allnode else
+                                 'polynomial of the reproduced class'))
+
+
+def build_items(groups, ctx, mm_every, semi_every=0):
     rnd = random.Random(ctx.seed)
     items = []
     for gi, (s0, es) in enumerate(groups):
@@ -635,7 +693,10 @@ def build_items(groups, ctx, mm_every):
             pts.append((x, None if o['err'] else float(fr(o['v'])), o['err'], o['inb'],
                         all(p['kd'] == 'node' for p in s['pos'])))
         do_mm = rnd.randrange(mm_every) == 0
-        items.append((s0, pts, do_mm, [e['s']['pos'] for e in es]))
+        # the semi-structured component: a seeded share of the groups and every evenly spaced 1-D grid (where Akima's
+        # quadratic exactness applies)
+        do_semi = bool(semi_every) and (rnd.randrange(semi_every) == 0 or (s0['dim'] == 1 and es[0]['o']['uni']))
+        items.append((s0, pts, do_mm, [e['s']['pos'] for e in es], es[0]['o']['uni'], do_semi))
     return items
 
 
@@ -671,6 +732,38 @@ def pred_akima_four_points(scenario, info):
                                                     'fixed-dimension variant differs' in f[3]) for f in fl)
 
 
+# third defect: the fixed-dimension methods keep two incompatible caches in one attribute (`coeffs` is a dict of
+# per-cell coefficients for single-point queries and is replaced by a set of cell indices by the vectorised path, which
+# also leaves index arrays in `last_index`): a single-point query after a multi-point query on the same InterpND raises
+def pred_fixed_mixed_batch(scenario, info):
+    s = scenario
+    fl = s.get('failing', [])
+    if 'hist' not in s or not fl:
+        return False
+    k = s.get('failing_call', 0)
+    h = s['hist']
+    if k < 1 or len(h[k][1]) != 1 or not any(len(c[1]) > 1 for c in h[:k]):
+        return False
+    return all(METHODS.get(f[0], (0, None, None))[1] is not None and f[2][0] == 'exc' and
+               ('TypeError' in f[2][1] or 'ValueError' in f[2][1]) for f in fl)
+
+
+# fourth / fifth defect (InterpAkimaSemi, MetaModelSemiStructuredComp(method='akima')): the derivative section uses
+# `bpos` / `dbp1` that are only bound when the Akima weights do not vanish (UnboundLocalError for any table that is
+# linear along an outer axis around the query), and the same idx == 1 == ngrid - 3 branch chain as the structured
+# Akima (wrong value in the middle cell of an axis with exactly 4 points)
+def pred_semi_akima_unbound(scenario, info):
+    fl = scenario.get('failing', [])
+    return bool(fl) and all(f[0] == 'akima' and f[1] == 'MetaModelSemiStructuredComp' and f[2][0] == 'exc' and
+                            'UnboundLocalError' in f[2][1] for f in fl)
+
+
+def pred_semi_akima_four_points(scenario, info):
+    fl = scenario.get('failing', [])
+    return bool(fl) and any(len(g) == 4 for g in scenario.get('g', [])) and \
+        all(f[0] == 'akima' and f[1] == 'MetaModelSemiStructuredComp' and f[2][0] == 'v' for f in fl)
+
+
 def replay(ctx):
     """./check C15 --replay <file>: execute one stored scenario again (every method, InterpND and the component)
     against the stored spec outcome."""
@@ -684,7 +777,7 @@ def replay(ctx):
     if 'hist' in s:
         return replay_history(ctx, 'C15', rec, 'val')
     crosscheck({'s': s, 'o': o})
-    item = build_items([(s, [{'s': s, 'o': o}])], ctx, 1)[0]
+    item = build_items([(s, [{'s': s, 'o': o}])], ctx, 1, 1)[0]
     cnt, fails = check_group(item)
     ctx.impl = 1
     ctx.evaluations = cnt.get('calls', 0)
@@ -698,7 +791,10 @@ def replay(ctx):
 
 def run(ctx):
     ctx.register_predicates({'C15-negative-grid-eps': pred_negative_grid_eps,
-                             'C15-akima-four-point-grid': pred_akima_four_points})
+                             'C15-akima-four-point-grid': pred_akima_four_points,
+                             'C15-fixed-method-mixed-batch': pred_fixed_mixed_batch,
+                             'C15-semi-akima-unbound-local': pred_semi_akima_unbound,
+                             'C15-semi-akima-four-point-grid': pred_semi_akima_four_points})
     if getattr(ctx, 'replay', None):
         return replay(ctx)
     quick = ctx.tier == 'quick'
@@ -710,7 +806,7 @@ def run(ctx):
                         interior=False, exset=[True, False])
     r, exports = run_tlc(ctx, cfg)
     groups = group(exports)
-    items = build_items(groups, ctx, mm_every=5 if quick else 6)
+    items = build_items(groups, ctx, mm_every=5 if quick else 6, semi_every=8 if quick else 6)
     n = nproc()
     # big groups first, round-robin over chunks
     order = sorted(range(len(items)), key=lambda i: -len(items[i][1]) * (3 ** items[i][0]['dim']))
